@@ -30,16 +30,36 @@ pub(crate) fn create_debug_map_builder(raw_string: &Ident) -> proc_macro2::Token
 /// How a field is borrowed for the builders, which take `&dyn Debug`: `&[u8]`, `&str` and `&dyn Trait` cannot be
 /// coerced to it (the last field of a struct may be unsized), a reference to such a reference can.
 #[inline]
-pub(crate) fn borrow_for_builder(ty: &Type) -> TokenStream {
-    let mut ty = ty;
-
-    while let Type::Group(group) = ty {
-        ty = group.elem.as_ref();
+pub(crate) fn borrow_for_builder(ast: &DeriveInput, ty: &Type) -> TokenStream {
+    /// `T: ?Sized` among the bounds
+    fn maybe_unsized<'a>(mut bounds: impl Iterator<Item = &'a syn::TypeParamBound>) -> bool {
+        bounds.any(|bound| {
+            matches!(bound, syn::TypeParamBound::Trait(bound) if matches!(bound.modifier, syn::TraitBoundModifier::Maybe(_)))
+        })
     }
+
+    let ty = crate::common::r#type::ungroup_type(ty);
 
     let unsized_by_syntax = match ty {
         Type::Slice(_) | Type::TraitObject(_) => true,
-        Type::Path(ty) => ty.qself.is_none() && ty.path.is_ident("str"),
+        Type::Path(ty) if ty.qself.is_none() && ty.path.is_ident("str") => true,
+        // a type parameter that is declared `?Sized` (inline or in the where-clause)
+        Type::Path(ty) if ty.qself.is_none() => match ty.path.get_ident() {
+            Some(ident) => {
+                ast.generics.type_params().any(|param| {
+                    param.ident == *ident && maybe_unsized(param.bounds.iter())
+                }) || ast.generics.where_clause.as_ref().map_or(false, |where_clause| {
+                    where_clause.predicates.iter().any(|predicate| match predicate {
+                        syn::WherePredicate::Type(predicate) => {
+                            matches!(&predicate.bounded_ty, Type::Path(bounded) if bounded.qself.is_none() && bounded.path.is_ident(ident))
+                                && maybe_unsized(predicate.bounds.iter())
+                        },
+                        _ => false,
+                    })
+                })
+            },
+            None => false,
+        },
         _ => false,
     };
 
